@@ -1348,14 +1348,16 @@ class ContactHandler(Messenger, dbus.service.Object):
             raise RejectError(messages.RejectMsg.Reason.UNEXPECTED)
 
         if self._config.modulate_target_ack_time is not None:
-            delta_b = length - self._segment_last_ack_len
-            self._segment_last_ack_len = length
-
             rx_time = datetime.datetime.now(datetime.timezone.utc)
-            tx_time = self._segment_tx_times.pop(length)
-            delta_t = (rx_time - tx_time).total_seconds()
+            # cumulative lengths repeat between transfers, so the
+            # transmit times are kept per transfer
+            tx_time = self._segment_tx_times.pop((transfer_id, length), None)
+            if tx_time is not None:
+                delta_b = length - self._segment_last_ack_len
+                self._segment_last_ack_len = length
+                delta_t = (rx_time - tx_time).total_seconds()
 
-            self._modulate_tx_seg_size(delta_b, delta_t)
+                self._modulate_tx_seg_size(delta_b, delta_t)
 
         item = self._tx_map[transfer_id]
         item.ack_length = length
@@ -1595,7 +1597,7 @@ class ContactHandler(Messenger, dbus.service.Object):
         # Actual segment
         self.send_xfer_data(self._tx_tmp.transfer_id, data, flg, ext_items)
         # Mark the transmit time
-        self._segment_tx_times[self._tx_length] = datetime.datetime.now(datetime.timezone.utc)
+        self._segment_tx_times[(self._tx_tmp.transfer_id, self._tx_length)] = datetime.datetime.now(datetime.timezone.utc)
 
         if flg & messages.TransferSegment.Flag.END:
             if not self._do_send_ack_final:
